@@ -22,6 +22,10 @@ func genValueList(r *rand.Rand, n int, ifaces bool, uniqueTypedType bool) []Labe
 // values of one type.
 func genValueListOver(r *rand.Rand, n int, ifaces bool, uniqueTypedType bool, pool []int, allDistinctTypes bool) []Label {
 	names := []string{"a", "b", "c", "dd", "e"}
+	if r.Intn(6) == 0 {
+		// names that are not Go identifiers (legal in a struct tag)
+		names = []string{"a-b", "1st", "_x", "d/d", "é1"}
+	}
 	var out []Label
 	usedN := map[string]bool{}
 	usedTS := map[string]bool{}
